@@ -3,8 +3,10 @@ CONSTANTS
   RADD = "fromR"
   SHAPES <- Q_SHAPES
   KICKS = {1, 2}
+  R0 = {2, 4, 7}
   NSWEEPS = 1
 INVARIANT Conformable
 INVARIANT IdxCovers
+INVARIANT StartAdmissible
 INVARIANT RanksValid
 CHECK_DEADLOCK FALSE
